@@ -7,15 +7,20 @@ model       : CardinalityH.tla -- TLC checks, for every history up to MaxSteps o
               filter, limiter, delta/cumulative collection) equals the declarative statement
               (first L-1 distinct filtered sets keep identity, the rest is one overflow point, counts
               and sums conserved, at most L points, drop silent; an instrument feeds exactly one
-              aggregator per distinct identity among the streams of its matching views).
+              aggregator per distinct identity among the streams of its matching views; with several
+              readers -- own temporality and aggregation selector each, shared views -- every reader's
+              streams hold exactly the part of the global measurement log since that reader's own last
+              collection, whatever the other readers collected in between).
 spec -> code: Cardinality.tla explored exhaustively, every edge printed; harness/c12 replays each edge
               through the public API (MeterProvider + ManualReader + views, OTEL_GO_X_CARDINALITY_LIMIT
-              set before the provider is built) on a fresh provider and compares every collection and a
-              final probing collection with the spec's `peek`.
+              set before the provider is built) on a fresh provider with one ManualReader per model reader
+              (WithTemporalitySelector / WithAggregationSelector) and compares every collection and a final
+              probing collection of every reader with the spec's `peek[r]`.
 code -> spec: harness/c12 runs seeded random pipelines (1-3 instruments of 7 kinds with units, descriptions,
               scopes and case-variant / same-name siblings, 0-4 views with wildcard patterns, unit / kind /
               description / scope criteria, renames to the same name / a case variant / another name, unit
-              and description masks, limit up to 16, 20-200 distinct attribute sets, 5 cycles); TLC validates
+              and description masks, 1-3 readers with selectors (Drop for some kinds) whose collections
+              interleave, observables by WithXCallback and by RegisterCallback, limit up to 16, 20-200 distinct attribute sets, 5 cycles); TLC validates
               every collection against CardModel (Trace_Cardinality.tla) and re-evaluates bound /
               conservation directly on the real observations.
 """
@@ -45,9 +50,19 @@ def tla_set(items):
     return "{" + ", ".join(tla(x) for x in items) + "}"
 
 
-def inst(name, kind, num="i", unit="", desc="", sn="c12", sv="", su=""):
-    """an instrument as requested from the Meter (sn, sv, su)"""
-    return {"name": name, "kind": kind, "num": num, "unit": unit, "desc": desc, "sn": sn, "sv": sv, "su": su}
+def inst(name, kind, num="i", unit="", desc="", sn="c12", sv="", su="", cb=None):
+    """an instrument as requested from the Meter (sn, sv, su); cb: how an observable gets its callback
+    ("reg" = Meter.RegisterCallback, "opt" = WithInt64Callback / WithFloat64Callback at creation)"""
+    if cb is None:
+        cb = "reg" if kind.startswith("o") else ""
+    return {"name": name, "kind": kind, "num": num, "unit": unit, "desc": desc, "sn": sn, "sv": sv, "su": su, "cb": cb}
+
+
+def reader(temp, **sel):
+    """one reader: temporality + aggregation selector (kind -> "" default | drop | sum | last | hist | expo)"""
+    d = {k: "" for k in KINDS}
+    d.update(sel)
+    return {"temp": temp, "sel": d}
 
 
 def view(mname="", mkind="", name="", agg="", keep=None, munit="", mdesc="", msn="", msv="", msu="", unit="", desc=""):
@@ -57,8 +72,9 @@ def view(mname="", mkind="", name="", agg="", keep=None, munit="", mdesc="", msn
             "filt": {"on": keep is not None, "keep": list(keep or [])}}
 
 
-def cfg(limit, temp, insts, views=()):
-    return {"limit": limit, "temp": temp, "insts": list(insts), "views": list(views)}
+def cfg(limit, temp, insts, views=(), readers=None):
+    """temp: temporality of the single default reader, ignored when `readers` is given"""
+    return {"limit": limit, "readers": list(readers) if readers else [reader(temp)], "insts": list(insts), "views": list(views)}
 
 
 # ---------------------------------------------------------------------------- configuration families
@@ -224,6 +240,57 @@ def family_ident(tier):
     return out
 
 
+def family_readers(tier):
+    """(C) several readers on one provider: each with its own temporality and aggregation selector (incl. Drop
+    for some kinds), the views shared; every reader owns its aggregators and receives every measurement /
+    observation once; collections of different readers interleave; observables by WithXCallback and by
+    Meter.RegisterCallback, int64 and float64"""
+    th = tier == "thorough"
+    out = []
+    D, C = "delta", "cumulative"
+    # an observable and a synchronous instrument, every number type x callback style, readers differing in
+    # temporality and in what they select for the observable's kind
+    pairs = [
+        [reader(C), reader(C)],
+        [reader(C), reader(D)],
+        [reader(D), reader(C, ocounter="drop")],
+        [reader(C, ocounter="drop"), reader(C)],
+        [reader(C, ocounter="sum", counter="drop"), reader(D, ocounter="hist")],
+    ]
+    for num in ("i", "f"):
+        for cbk in ("opt", "reg"):
+            for j, rds in enumerate(pairs):
+                if not th and (num, cbk) in (("i", "opt"), ("f", "reg")) and j in (1, 4):
+                    continue
+                out.append(cfg((0, 2)[j % 2], "", [inst("obs", "ocounter", num, cb=cbk), inst("syn", "counter", num)], [], rds))
+    # other observable kinds; a reader that drops the gauge kinds / the up-down kinds
+    out.append(cfg(2, "", [inst("og", "ogauge", "f", cb="opt"), inst("ou", "oupdown", "i", cb="reg")], [],
+                   [reader(D, ogauge="drop"), reader(C, oupdown="drop"), reader(C)]))
+    out.append(cfg(0, "", [inst("ou", "oupdown", "f", cb="opt"), inst("g", "gauge", "i")], [],
+                   [reader(C, oupdown="expo", gauge="drop"), reader(D)]))
+    # shared views: filter, rename, drop view, explicit default against the reader's selection
+    out.append(cfg(2, "", [inst("obs", "ocounter", "f", cb="opt")], [view("obs", keep=["a"])], [reader(C), reader(C)]))
+    out.append(cfg(0, "", [inst("obs", "ocounter", "i", cb="reg"), inst("h", "histogram", "f")],
+                   [view("obs", name="renamed", agg="default"), view("h", agg="default", keep=["b"])],
+                   [reader(D, ocounter="drop", histogram="drop"), reader(C, histogram="expo")]))
+    out.append(cfg(2, "", [inst("obs", "oupdown", "f", cb="opt"), inst("c", "counter", "i")],
+                   [view("obs", agg="drop"), view("c", name="c2"), view("c")], [reader(C), reader(D, counter="hist")]))
+    # two observables reported by one registered callback, one of them dropped by one reader; same instrument twice
+    out.append(cfg(0, "", [inst("o1", "ocounter", "i", cb="reg"), inst("o2", "ogauge", "i", cb="reg")], [],
+                   [reader(C, ocounter="drop"), reader(C, ogauge="drop")]))
+    out.append(cfg(2, "", [inst("o1", "ocounter", "f", cb="opt"), inst("o1", "ocounter", "f", cb="opt")], [],
+                   [reader(D), reader(C)]))
+    # synchronous only: the reader's selection per kind, one reader dropping
+    out.append(cfg(2, "", [inst("c", "counter", "i"), inst("h", "histogram", "i")], [],
+                   [reader(D, counter="drop"), reader(C, histogram="sum"), reader(C, histogram="drop", counter="expo")]))
+    if th:
+        for num in ("i", "f"):
+            for cbk in ("opt", "reg"):
+                out.append(cfg(3, "", [inst("og", "ogauge", num, cb=cbk), inst("ou", "oupdown", num, cb=cbk)], [view("o?", keep=["a"])],
+                               [reader(D, ogauge="expo"), reader(C, oupdown="drop"), reader(D, ogauge="drop")]))
+    return out
+
+
 SETS_LIMIT_QUICK = [{"a": 1, "b": 0}, {"a": 2, "b": 0}, {"a": 0, "b": 1}]
 SETS_LIMIT_THOROUGH = SETS_LIMIT_QUICK + [{"a": 0, "b": 0}]
 SETS_VIEWS = [{"a": 1, "b": 1}, {"a": 1, "b": 2}, {"a": 2, "b": 1}]
@@ -241,6 +308,8 @@ def families(tier):
         dict(name="select", configs=family_select(tier), sets=SETS_VIEWS if th else SETS_SELECT,
              steps=2, hsteps=2),
         dict(name="ident", configs=family_ident(tier), sets=SETS_VIEWS,
+             steps=4 if th else 3, hsteps=4 if th else 3),
+        dict(name="readers", configs=family_readers(tier), sets=SETS_SELECT,
              steps=4 if th else 3, hsteps=4 if th else 3),
     ]
 
@@ -270,8 +339,13 @@ def view_sig(v):
 
 def cfg_sig(c):
     c = c or {}
-    return {"limit": c.get("limit"), "temp": c.get("temp"), "kinds": ",".join(i["kind"] for i in c.get("insts", [])),
-            "views": ";".join(view_sig(v) for v in c.get("views", []))}
+    temps = ",".join(r["temp"] + ("+sel" if any(r["sel"].values()) else "") for r in c.get("readers", []))
+    sig = {"limit": c.get("limit"), "temp": temps, "kinds": ",".join(i["kind"] for i in c.get("insts", [])),
+           "views": ";".join(view_sig(v) for v in c.get("views", []))}
+    obs = ",".join("%s-%s" % (i["cb"], i["num"]) for i in c.get("insts", []) if i.get("cb"))
+    if len(c.get("readers", [])) > 1:
+        sig["obs"] = obs
+    return sig
 
 
 def classify(want, got, limit):
@@ -430,7 +504,10 @@ def run(ctx):
                  "edges_with_views", "scenarios_wildcard_name_fits_other_criterion_rejects",
                  "scenarios_exact_name_fits_other_criterion_rejects", "scenarios_views_with_identical_streams",
                  "scenarios_views_with_distinct_streams", "scenarios_case_variant_stream_names_one_identity",
-                 "scenarios_same_name_distinct_streams", "scenarios_scope_criterion", "scenarios_sibling_instruments"):
+                 "scenarios_same_name_distinct_streams", "scenarios_scope_criterion", "scenarios_sibling_instruments",
+                 "edges_with_several_readers", "scenarios_several_readers", "scenarios_readers_differ_in_temporality",
+                 "scenarios_instrument_dropped_by_some_reader_only", "scenarios_reader_aggregation_selector",
+                 "scenarios_several_readers_observable_opt_f", "scenarios_several_readers_observable_reg_i"):
         if only:
             break
         if not counters.get(need):
@@ -444,10 +521,14 @@ def run(ctx):
         "(the SDK may fail fast), a name criterion that fits an instrument only up to letter case",
         "stream and instrument names are compared case-insensitively (the harness lower-cases reported names); which "
         "casing is exported is not constrained",
-        "observations of asynchronous instruments reach the aggregators in the order the callback makes them",
+        "observations of asynchronous instruments reach the aggregators in the order the callback makes them; the "
+        "harness callbacks make every staged observation once per reader, at that reader's next collection; different "
+        "observables that share an aggregator report through one registered callback (order of separate callbacks is "
+        "not specified)",
+        "WithXCallback and RegisterCallback are not distinguished by the model (the statement does not)",
         "pre-computed sums under delta report the change against the same *reported* set of the preceding cycle "
         "(C08 rule applied after the limit); totals are only required to be conserved for cumulative ones",
     ]
-    ctx.extra["rule"] = ("edges: every transition of Cardinality.tla for the configuration families limit/views/select/ident; "
+    ctx.extra["rule"] = ("edges: every transition of Cardinality.tla for the configuration families limit/views/select/ident/readers; "
                          "H: every operation sequence up to hsteps; random: seeded scenarios; a case is distinct by "
                          "(configuration, operation sequence)")
